@@ -375,8 +375,8 @@ fn main() {
         "`ethnum` is not available offline: the SDK is compiled against /verif/vendor/ethnum-shim, a U256 over `uint` 0.9.5 with the std-integer semantics ethnum documents (checked_shl fails only for shifts >= 256)".into(),
         "only the Rust core is exercised; its TypeScript/WASM packaging cannot be built offline".into(),
     ];
-    let mut acc = function_level(seed, tier.pick(4_000_000, 400_000_000), tier.pick(1_600_000, 160_000_000));
-    let per_shard = tier.pick(14, 1400);
+    let mut acc = function_level(seed, tier.pick(16_000_000, 400_000_000), tier.pick(6_400_000, 160_000_000));
+    let per_shard = tier.pick(56, 1400);
     let acc2 = run_histories(
         seed ^ 0x20,
         per_shard,
